@@ -20,8 +20,27 @@ type parserSpec struct {
 
 func checkParsers(w *World, r *Report, rule string) {
 	var ps []parserSpec
-	if fn := w.Func("cmd/thermal-recorder", "convertRawBosonFrame"); fn != nil {
-		ps = append(ps, parserSpec{"Boson (little-endian)", fn, "littleEndian"})
+	// the repo's own parser: the repo function the selector can return
+	if sel := findParserSelector(w); sel != nil {
+		for _, b := range sel.Blocks {
+			if ret, ok := b.Instrs[len(b.Instrs)-1].(*ssa.Return); ok {
+				v := ret.Results[0]
+				if ct, ok := v.(*ssa.ChangeType); ok {
+					v = ct.X
+				}
+				if fn, ok := v.(*ssa.Function); ok && w.IsRepoFunc(fn) {
+					dup := false
+					for _, p := range ps {
+						if p.fn == fn {
+							dup = true
+						}
+					}
+					if !dup {
+						ps = append(ps, parserSpec{"Boson (little-endian)", fn, "littleEndian"})
+					}
+				}
+			}
+		}
 	}
 	if l3 := w.SSAPkgs["github.com/TheCacophonyProject/lepton3"]; l3 != nil {
 		if fn := l3.Func("ParseRawFrame"); fn != nil && len(fn.Blocks) > 0 {
@@ -29,7 +48,7 @@ func checkParsers(w *World, r *Report, rule string) {
 		}
 	}
 	// which parsers are actually selected: the functions returned by the parser selection
-	sel := w.Func("cmd/thermal-recorder", "frameParser")
+	sel := findParserSelector(w)
 	selected := map[*ssa.Function]bool{}
 	if sel != nil {
 		for _, b := range sel.Blocks {
@@ -283,4 +302,23 @@ func atomsOf(t *Term, pos bool) []string {
 
 func isNilCheck(a string) bool {
 	return strings.HasPrefix(a, "eq(") && (strings.HasPrefix(a, "eq(nil, ") || strings.HasSuffix(a, ", nil)"))
+}
+
+// findParserSelector: the function of the recorder package that maps (brand, model) strings to a raw-frame
+// parser func([]byte, *cptvframe.Frame, int) error.
+func findParserSelector(w *World) *ssa.Function {
+	for _, fn := range w.funcsInPkg("cmd/thermal-recorder") {
+		sig := fn.Signature
+		if sig.Recv() != nil || sig.Results().Len() != 1 || sig.Params().Len() != 2 {
+			continue
+		}
+		rs, ok := sig.Results().At(0).Type().Underlying().(*types.Signature)
+		if !ok || rs.Params().Len() != 3 || rs.Results().Len() != 1 {
+			continue
+		}
+		if typeIs(rs.Params().At(1).Type(), "github.com/TheCacophonyProject/go-cptv/cptvframe", "Frame") {
+			return fn
+		}
+	}
+	return nil
 }
